@@ -51,12 +51,17 @@ type verifC08_clock struct {
 	fireTimer bool
 	timers    int
 	lastWait  time.Duration
+	ctx       *verifC08_ctx // shutdown may begin while the client waits on this timer
 }
 
 func (c *verifC08_clock) Now() time.Time { return time.Unix(c.now, 0) }
 func (c *verifC08_clock) NewTimer(d time.Duration) (clock.Timer, <-chan time.Time) {
 	c.timers++
 	c.lastWait = d
+	if c.ctx != nil && !c.ctx.cancelled && rt.NondetBool("shutdown begins while the client waits for updates") {
+		c.ctx.cancelled = true
+		rt.Cover("shutdown:during-wait")
+	}
 	ch := make(chan time.Time, 1)
 	if c.fireTimer {
 		ch <- c.Now()
@@ -170,7 +175,7 @@ func (s *verifC08_scheduler) Synchronize(ctx context.Context, in *remoteworker.S
 		s.sawCancelled = true
 		rt.Assert(in.PreferBeingIdle, "from the moment shutdown began every request asks to be left idle")
 	}
-	next := timestamppb.New(time.Unix(s.clk.now+[]int64{0, 10}[rt.Choose(2)], 0))
+	next := timestamppb.New(time.Unix(s.clk.now+[]int64{0, 45}[rt.Choose(2)], 0))
 	if s.toldIdle {
 		_, idle := in.CurrentState.WorkerState.(*remoteworker.CurrentState_Idle)
 		rt.Assert(idle, "a worker that was told to go idle reports idle from then on")
@@ -215,10 +220,11 @@ func verifHarness_C08_BuildClient() {
 		k = 3
 	}
 	rt.Bound("runs", k)
-	rt.MustCover("sched:execute", "sched:idle", "sched:no-change", "sched:rpc-error", "sched:bad-timestamp", "exec:replaced", "exec:completed-reported", "shutdown:keeps-synchronizing", "shutdown:terminates", "readiness:failed", "sched:idle-obeyed")
+	rt.MustCover("sched:execute", "sched:idle", "sched:no-change", "sched:rpc-error", "sched:bad-timestamp", "exec:replaced", "exec:completed-reported", "shutdown:keeps-synchronizing", "shutdown:terminates", "readiness:failed", "sched:idle-obeyed", "shutdown:during-wait")
 	clk := &verifC08_clock{now: 1000}
 	ex := &verifC08_executor{cmds: make(chan verifC08_cmd)}
 	ctx := &verifC08_ctx{}
+	clk.ctx = ctx
 	sched := &verifC08_scheduler{ex: ex, clk: clk, ctx: ctx}
 	bc := NewBuildClient(sched, ex, nil, clk, map[string]string{"h": "w"}, digest.EmptyInstanceName, &remoteexecution.Platform{}, 0)
 	sched.bc = bc
@@ -226,7 +232,7 @@ func verifHarness_C08_BuildClient() {
 	finishedCurrent := false // ghost: the harness told the current action to finish
 	for i := 0; i < k; i++ {
 		// environment step: clock, shutdown, readiness, executor progress
-		clk.now += []int64{0, 30, 120}[rt.Choose(3)]
+		clk.now += []int64{0, 70, 120}[rt.Choose(3)]
 		if !ctx.cancelled && rt.NondetBool("shutdown begins") {
 			ctx.cancelled = true
 		}
